@@ -11,6 +11,14 @@ import (
 
 const c20Big = int64(1) << 61
 
+// what the known finding D13 consists of: rand.Int63n panicking on a non-positive width, the
+// generator failing on a later call, emissions going back in time after a timestamp wrapped.
+// Any other violation in the same region of configurations is reported.
+// value-range / delta edges show up only as the Int63n panic on a non-positive width
+var c20D13Width = []string{"invalid argument to Int63n"}
+
+var c20D13 = []string{"invalid argument to Int63n", "never makes the generator fail", "non-decreasing timestamp order", "delay between emissions is never negative"}
+
 // c20Value builds one symbolic value configuration of the given kind and assumes the
 // validity rules the generator documents by its own checks; returns the configuration.
 //
@@ -33,7 +41,7 @@ func c20Value(h *zz.H, name string, kind int) *fpb.Value {
 		h.Assume(v.Seed != 0)
 	}
 	// D13 (known finding): configurations at the edge of int64 overflow the width / the timestamp sum
-	h.Known("D13-int64-edge-of-range", ts >= c20Big || dmax >= c20Big)
+	h.Known("D13-int64-edge-of-range", ts >= c20Big || dmax >= c20Big, c20D13...)
 	random := h.Range(name+"_random", 0, 1) == 1
 	switch kind {
 	case 0, 1:
@@ -43,9 +51,9 @@ func c20Value(h *zz.H, name string, kind int) *fpb.Value {
 		if kind == 1 {
 			r.DeltaMin, r.DeltaMax = h.Int64(name+"_rdmin"), h.Int64(name+"_rdmax")
 			h.Assume(r.DeltaMin <= r.DeltaMax && (r.DeltaMin != 0 || r.DeltaMax != 0))
-			h.Known("D13-int64-edge-of-range", r.DeltaMin <= -c20Big || r.DeltaMax >= c20Big)
+			h.Known("D13-int64-edge-of-range", r.DeltaMin <= -c20Big || r.DeltaMax >= c20Big, c20D13Width...)
 		}
-		h.Known("D13-int64-edge-of-range", mn <= -c20Big || mx >= c20Big)
+		h.Known("D13-int64-edge-of-range", mn <= -c20Big || mx >= c20Big, c20D13Width...)
 		v.Value = &fpb.Value_IntValue{IntValue: &fpb.IntValue{Value: val, Distribution: &fpb.IntValue_Range{Range: r}}}
 	case 2:
 		n := h.Range(name+"_nopt", 1, 3)
@@ -59,7 +67,7 @@ func c20Value(h *zz.H, name string, kind int) *fpb.Value {
 		h.Assume(mn <= mx && val >= mn && val <= mx)
 		r := &fpb.UintRange{Minimum: mn, Maximum: mx, DeltaMin: h.Int64(name + "_rdmin"), DeltaMax: h.Int64(name + "_rdmax")}
 		h.Assume(r.DeltaMin <= r.DeltaMax && (r.DeltaMin != 0 || r.DeltaMax != 0))
-		h.Known("D13-int64-edge-of-range", mx >= uint64(c20Big) || r.DeltaMin <= -c20Big || r.DeltaMax >= c20Big)
+		h.Known("D13-int64-edge-of-range", mx >= uint64(c20Big) || r.DeltaMin <= -c20Big || r.DeltaMax >= c20Big, c20D13Width...)
 		v.Value = &fpb.Value_UintValue{UintValue: &fpb.UintValue{Value: val, Distribution: &fpb.UintValue_Range{Range: r}}}
 	case 4:
 		val, mn, mx := h.Float64(name+"_val"), h.Float64(name+"_min"), h.Float64(name+"_max")
